@@ -137,12 +137,20 @@ def full_run(impl, wd, name, crc, ops):
     return d, (out[0] if out else "<none>"), tr
 
 
+SESSION2 = ["n3", "p3:%s:9:1" % W.khex("x1"), "p3:%s:700:2" % W.khex("x2"), "d3:%s" % W.khex("x1"), "s", "q"]
+SESSION2_DB3 = "db3{%s=%s}" % (W.khex("x2"), W.vrepr(W.genval(700, 2)))
+
+
 def crash_cases(run, impl, wd, name, crc, ops, kills):
-    """kills: list of (killat, rec_kill or None). Returns list of (tr, recline)"""
+    """kills: list of (killat, rec_kill or None, cont).  cont = continue into a second session after the
+    recovering open: reopen, create db 3, put/del/sync, CLEAN close, reopen and dump.
+    Returns list of (trace of the killed run, line of the first complete recovering open, all lines, cont result)"""
     n = len(kills)
     nch = max(1, min(vlib.NCPU, n))
     chunks, idx = [[] for _ in range(nch)], [[] for _ in range(nch)]
-    for ci, (k, rk) in enumerate(kills):
+    for ci, kk in enumerate(kills):
+        k, rk = kk[0], kk[1]
+        cont = len(kk) > 2 and kk[2]
         d = os.path.join(wd, "%s-k%d" % (name, ci))
         shutil.rmtree(d, ignore_errors=True)
         os.makedirs(d)
@@ -151,20 +159,56 @@ def crash_cases(run, impl, wd, name, crc, ops, kills):
         if rk is not None:
             lines.append("rec %s %d %d" % (d, crc, rk))
         lines.append("rec %s %d -1" % (d, crc))
+        nrec = len(lines)
+        if cont:
+            lines.append("run %s %d 0 -1 2 %s" % (d, crc, " ".join(SESSION2)))
+            lines.append("rec %s %d -1" % (d, crc))
         chunks[c] += lines
-        idx[c].append((ci, len(lines)))
+        idx[c].append((ci, len(lines), nrec, cont))
     outs = W.par_lines(impl, chunks)
     res = [None] * n
     for c in range(nch):
         p = 0
-        for ci, nl in idx[c]:
+        for ci, nl, nrec, cont in idx[c]:
             ls = outs[c][p:p + nl]
             p += nl
             d = os.path.join(wd, "%s-k%d" % (name, ci))
             tr = W.parse_trace(os.path.join(d, "trace"))
-            res[ci] = (tr, ls[-1] if ls else "<missing>", ls)
+            contres = None
+            if cont and len(ls) == nl:
+                contres = {"run": ls[nrec], "final": ls[nrec + 1], "trace2": W.parse_trace(os.path.join(d, "trace2"))}
+            res[ci] = (tr, ls[nrec - 1] if len(ls) >= nrec else "<missing>", ls, contres)
             shutil.rmtree(d, ignore_errors=True)
     return res
+
+
+def judge_continuation(recline, contres):
+    """second session after a recovery: the store must keep exactly what the recovering open showed, plus what the
+    second session did (db 3), across a clean close and another open; returns None or text"""
+    f1 = W.fields(recline)
+    shown, _ = W.canon_dump(f1.get("dump", ""))
+    if contres["run"] != "run exit=0":
+        return "the session after the recovery died: %s" % contres["run"]
+    t2 = contres["trace2"]
+    if not t2["open"] or t2["open"][0] != "0":
+        return "the second open after the kill fails: %s" % (t2["open"],)
+    again, _ = W.canon_dump(t2["dump0"] or "")
+    if again != shown:
+        return "the second open after the kill shows a different state than the first recovering open"
+    bad = [i for i in sorted(t2["ops"]) if t2["ops"][i].get("rc") not in ("0",)]
+    if bad:
+        return "operation %d of the session after the recovery fails with %s" % (bad[0], t2["ops"][bad[0]].get("rc"))
+    ff = W.fields(contres["final"])
+    if ff.get("exit") != "0" or ff.get("rc") != "0":
+        return "the open after the cleanly closed second session fails: %s" % contres["final"][:120]
+    final, probs = W.canon_dump(ff.get("dump", ""))
+    want = (shown if shown != "empty" else "") + SESSION2_DB3
+    if probs:
+        return "scan after the second session is malformed: %s" % ",".join(probs)
+    if final != want:
+        return ("after recovery + more work + sync + clean close + reopen the store does not hold (state shown by the recovery) + "
+                "(work of the second session): operations discarded by the recovery came back or later work was lost")
+    return None
 
 
 def proto_t2(run, model, mode, d, crc, ops, full):
@@ -195,7 +239,7 @@ def proto_t2(run, model, mode, d, crc, ops, full):
     return None
 
 
-def do_history(run, impl, wd, name, crc, ops, nfirst, nlater, rec_kills, corpus_kills=None, model=None, mode="wrap"):
+def do_history(run, impl, wd, name, crc, ops, nfirst, nlater, rec_kills, corpus_kills=None, model=None, mode="wrap", ncont=12):
     rng = run.rng
     d, line, full = full_run(impl, wd, name, crc, ops)
     if line != "run exit=0" or full["nfx"] is None:
@@ -222,7 +266,7 @@ def do_history(run, impl, wd, name, crc, ops, nfirst, nlater, rec_kills, corpus_
     for k, c, off, ln in full["fx"]:
         run.dist("fx_%s_%s" % ({1: "write", 2: "pwrite", 3: "ftruncate", 4: "fallocate", 5: "fsync", 6: "fdatasync", 7: "msync", 8: "walrec"}.get(k, k), c))
     if corpus_kills is not None:
-        kills = [(N if k == "end" else k, rk) for k, rk in corpus_kills]
+        kills = [(N if k == "end" else k, rk, True) for k, rk in corpus_kills]
     else:
         pts = list(range(0, min(N, nfirst) + 1))
         if N > nfirst:
@@ -233,21 +277,54 @@ def do_history(run, impl, wd, name, crc, ops, nfirst, nlater, rec_kills, corpus_
             pts += sorted(rest[:nlater])
         if N not in pts:
             pts.append(N)
-        kills = [(k, None) for k in pts]
+        # continuation into a second session: crash points at which the log holds flushed but unsynced records
+        # (the last log effect before the kill is a write issued inside a put/del: buffer overflow flush), plus a
+        # few random ones
+        fx = full["fx"]
+        midop = set()
+        for i, op in enumerate(ops):
+            o = full["ops"].get(i)
+            if o and "fx1" in o and op[0] in "pd":
+                for j in range(o["fx0"], o["fx1"]):
+                    if fx[j][1] == "W" and fx[j][0] == W_WRITE:
+                        midop.add(j + 1)
+                        midop.add(o["fx1"])
+        cand = sorted(k for k in midop if k <= N)
+        for i in range(len(cand) - 1, 0, -1):
+            j = rng.below(i + 1)
+            cand[i], cand[j] = cand[j], cand[i]
+        conts = set(cand[:ncont]) | set(rng.choice(pts) for _ in range(max(2, ncont // 4)))
+        kills = [(k, None, k in conts) for k in pts]
         for _ in range(rec_kills):
-            kills.append((rng.choice(pts), rng.below(6)))
+            kills.append((rng.choice(pts), rng.below(6), False))
     res = crash_cases(run, impl, wd, name, crc, ops, kills)
-    for (k, rk), (tr, recline, ls) in zip(kills, res):
+    for kk, (tr, recline, ls, contres) in zip(kills, res):
+        k, rk = kk[0], kk[1]
         run.dist("crash_level_%d" % (2 if rk is not None else 1))
         lo, hi, done, inflight = allowed_prefixes(ops, tr)
         run.dist("crash_in_flight_%s" % (ops[done][0] if inflight and done < len(ops) else "between"))
         run.case("%s|%d|%d|%s" % (" ".join(ops), crc, k, rk), nontrivial=True,
                  sample={"ops": len(ops), "crc": crc, "killat": k, "of": N, "rec_kill": rk, "impl": recline[:160]} if k % 53 == 0 else None)
         ok, why, rng_, got = judge(ops, states, tr, recline)
+        cl = None
         if ok:
             run.cov["traces_validated_against_impl"] += 1
-            continue
-        cl = growth_class(ops, full, k)
+            # protocol conformance (Proto.recovery_effects ends with ELogTruncate): a successful recovering open
+            # leaves an empty log behind
+            if W.fields(recline).get("walsz", "0") != "0":
+                run.dist("recovery_left_log_behind")
+                if len(run.broken) < 6:
+                    run.broken.append("T2 correspondence (Proto.recovery_effects): after the recovering open the log file still has %s "
+                                      "bytes (history %s, kill before effect %d)" % (W.fields(recline).get("walsz"), name, k))
+            if contres is not None:
+                run.dist("second_session")
+                why2 = judge_continuation(recline, contres)
+                if why2:
+                    ok, why, cl = False, why2, "second-session"
+            if ok:
+                continue
+        if cl is None:
+            cl = growth_class(ops, full, k)
         if os.environ.get("VERIF_DEBUG"):
             print("DBG viol", name, "kill", k, "/", N, "rk", rk, cl, rng_, why[:90])
         run.cov.setdefault("violations_by_class", {})
@@ -255,7 +332,9 @@ def do_history(run, impl, wd, name, crc, ops, nfirst, nlater, rec_kills, corpus_
         if run.cov["violations_by_class"][cl] > 2:
             continue
         run.violation({"ops": ops, "crc": crc, "killat": k, "effects": N, "rec_kill": rk, "class": cl,
-                       "admissible_prefixes": list(rng_), "impl": recline[:3000], "recovered": got}, why)
+                       "second_session": SESSION2 if cl == "second-session" else None,
+                       "admissible_prefixes": list(rng_), "impl": recline[:3000], "recovered": got,
+                       "final": (contres or {}).get("final", "")[:1500] if cl == "second-session" else None}, why)
     shutil.rmtree(d, ignore_errors=True)
     return full
 
@@ -305,11 +384,19 @@ def replay(run, path):
         k = r["killat"]
         if r.get("effects") is not None and k == r["effects"]:
             k = full["nfx"]
-        res = crash_cases(run, impl, wd, "r", r["crc"], ops, [(k, r.get("rec_kill"))])[0]
+        cont = r.get("class") == "second-session"
+        res = crash_cases(run, impl, wd, "r", r["crc"], ops, [(k, r.get("rec_kill"), cont)])[0]
         ok, why, rng_, got = judge(ops, ref_states(ops), res[0], res[1])
+        if ok and cont and res[3] is not None:
+            why2 = judge_continuation(res[1], res[3])
+            if why2:
+                ok, why = False, why2
         print("history:", " ".join(ops)); print("checksum/buffer mode:", r["crc"], " kill before effect", k, "of", full["nfx"], " recovery kill:", r.get("rec_kill"))
-        print("class:", growth_class(ops, full, k), " admissible prefixes:", rng_)
-        print("impl:", res[1][:800]); print("verdict:", "holds" if ok else "VIOLATED: " + why); print("recorded:", r.get("note"))
+        print("class:", r.get("class") if cont else growth_class(ops, full, k), " admissible prefixes:", rng_)
+        print("recovering open:", res[1][:600])
+        if cont and res[3] is not None:
+            print("second session:", " ".join(SESSION2), "->", res[3]["run"]); print("open after its clean close:", res[3]["final"][:600])
+        print("verdict:", "holds" if ok else "VIOLATED: " + why); print("recorded:", r.get("note"))
         return 0 if ok else 1
     finally:
         shutil.rmtree(wd, ignore_errors=True)
